@@ -200,13 +200,25 @@ def enumerate_paths(stmts, stack, env, limit=256):
             raise AnalysisError('too many paths in a dispatch branch')
         for i, st in enumerate(stmts):
             if isinstance(st, ast.If):
-                t = src(inline(st.test, env))
+                test = st.test
+                flip = False
+                while isinstance(test, ast.UnaryOp) and isinstance(test.op, ast.Not):
+                    test = test.operand
+                    flip = not flip
+                t = src(inline(test, env))
                 for c in ast.walk(st.test):
                     if isinstance(c, ast.Call):
                         _call_event(c, env, events, st.lineno)
                 rest = stmts[i + 1:]
-                go(list(st.body) + rest, conds + ((t, True),), list(events), dict(env))
-                go(list(st.orelse) + rest, conds + ((t, False),), list(events), dict(env))
+                go(list(st.body) + rest, conds + ((t, not flip),), list(events), dict(env))
+                go(list(st.orelse) + rest, conds + ((t, flip),), list(events), dict(env))
+                return
+            if isinstance(st, ast.Assign) and isinstance(st.value, ast.IfExp) and len(st.targets) == 1:
+                # x = A if c else B  ==  if c: x = A else: x = B
+                a = ast.copy_location(ast.Assign(targets=st.targets, value=st.value.body), st)
+                b = ast.copy_location(ast.Assign(targets=st.targets, value=st.value.orelse), st)
+                new = ast.copy_location(ast.If(test=st.value.test, body=[a], orelse=[b]), st)
+                go([new] + list(stmts[i + 1:]), conds, list(events), dict(env))
                 return
             if isinstance(st, ast.Continue):
                 results.append(Path(conds, events, 'continue'))
@@ -302,6 +314,27 @@ def _simple(st, stack, env, events):
             if isinstance(c, ast.Call):
                 _call_event(c, env, events, ln)
         return
+    if isinstance(st, ast.For) and isinstance(st.target, ast.Name) and len(st.body) == 1 and not st.orelse:
+        b = st.body[0]
+        if isinstance(b, ast.Expr) and isinstance(b.value, ast.Call) and isinstance(b.value.func, ast.Attribute) \
+                and isinstance(b.value.func.value, ast.Name) and b.value.func.value.id == stack \
+                and b.value.func.attr == 'append' and len(b.value.args) == 1:
+            elt = b.value.args[0]
+            tv = st.target.id
+            if isinstance(elt, ast.Tuple) and len(elt.elts) == 3 and isinstance(elt.elts[2], ast.Name) and elt.elts[2].id == tv:
+                it = inline(st.iter, env)
+                rev = False
+                if isinstance(it, ast.Call) and isinstance(it.func, ast.Name) and it.func.id == 'reversed' and len(it.args) == 1:
+                    rev = True
+                    it = it.args[0]
+                elif isinstance(it, ast.Subscript) and isinstance(it.slice, ast.Slice) and it.slice.lower is None \
+                        and it.slice.upper is None and src(it.slice.step) == '-1':
+                    rev = True
+                    it = it.value
+                env2 = {k: v2 for k, v2 in env.items() if k != tv}
+                events.append(('push', src(inline(elt.elts[0], env2)), src(inline(elt.elts[1], env2)),
+                               'each(' + src(it) + ')', {'reversed': rev, 'iter': True}, ln))
+                return
     for c in ast.walk(st):
         if isinstance(c, ast.Call):
             _call_event(c, env, events, ln)
